@@ -406,6 +406,9 @@ class Heap:
             val = home.consts.get(c, {}).get(node.id) if home is not None else None
             if isinstance(val, (str, int, bytes, tuple, frozenset)) and not isinstance(val, bool):
                 return (val,)
+            mfn = home.funcs.get(node.id) if home is not None else None
+            if mfn is not None and not mfn.node.decorator_list:
+                return (Closure(mfn.node, {}, None, None),)          # a function of the module named in a class-level table
         return None
 
     def setattr(self, ref, attr, value, cur_cls):
